@@ -124,7 +124,8 @@ def save_load(project, violations, i, probes):
 
 
 def execute(case):
-    s = builder.Session()
+    layout = case.get("layout", 1)
+    s = builder.Session(layout=layout)
     violations = []
     probes = {}
     states = []
@@ -139,7 +140,7 @@ def execute(case):
             if before.get(("nmodules",), 0) >= 2:
                 nontrivial = True
             if loaded is not None:
-                s = builder.Session(loaded)
+                s = builder.Session(loaded, layout=layout)
             log.append((i, "save_load", loaded is not None, seeds.digest(sorted((repr(k), repr(v)) for k, v in before.items()))))
         elif op["k"] == "save":
             # an intermediate save without restart (users save while they keep editing)
@@ -187,7 +188,7 @@ def generate(seed, i, tier="quick"):
         if r.random() < 0.35:
             ops.insert(len(ops) - r.randint(0, min(n, 6)), {"k": "save"})
         ops.append({"k": "save_load"})
-    return {"property": PROPERTY, "world": "store", "ops": ops}
+    return {"property": PROPERTY, "world": "store", "layout": 2, "ops": ops}
 
 
 def plan(tier, seed):
